@@ -101,8 +101,11 @@ impl TxBatchBuilder {
             }
 
             current_tx_proposal.add_last_ada_to_last_output()?;
-            self.asset_groups
+            let tx_size = self
+                .asset_groups
                 .set_min_ada_for_tx(&mut current_tx_proposal)?;
+            self.asset_groups
+                .check_finished_tx_proposal(&current_tx_proposal, tx_size)?;
             self.tx_proposals.push(current_tx_proposal);
         }
 
